@@ -581,6 +581,16 @@ def setattr_(interp, st, o, name, v):
         st.ghost[f'attr:{o._name}.{name}'] = v
         st.emit('setattr', obj=o._name, name=name, value=v)
         return
+    if isinstance(o, Exc):
+        # e.args += (...,) / e.note = ...: decoration of an exception value; its class (what handlers match on) is unchanged
+        if name == 'args':
+            try:
+                o.args = tuple(v) if isinstance(v, (tuple, list)) else o.args
+            except Exception:
+                pass
+        else:
+            o.attrs[name] = v
+        return
     raise Unsupported(f'attribute store {name} on {o!r}')
 
 
